@@ -100,7 +100,7 @@ var DefaultTimerFrames = []string{
 	"Retry.Middleware",
 	"middleware.(*Throttle)",
 	"middleware.Throttle",
-	"components/requeuer.",
+	"requeuer.(*Requeuer).handler",
 	"vlib.TimerWait",
 }
 
